@@ -411,6 +411,7 @@ class StmtMixin:
             if is_for:
                 self.assign(node.target, self.iter_get(d, idx, fr), fr)
             fr.pre_stack.append((dict(st.heap), dict(fr.locals)))
+            iter_heap, iter_alloc = st.snapshot()
             try:
                 try:
                     self.exec_block(node.body, fr)
@@ -434,6 +435,8 @@ class StmtMixin:
                 if variant0 is not None:
                     v1 = IV(self.spec_eval(spec.decreases, fr).term)
                     st.check(f"{base}/variant-decreases", v1 < variant0, "decreases")
+                if spec.frame is not None and track:
+                    self.check_loop_frame(spec, fr, base, iter_heap, iter_alloc)
                 if track:
                     self.reach[f"{base}/body-end"] = self.reach.get(f"{base}/body-end", 0) + (1 if st.reachable() else 0)
                 raise PathEnd()
@@ -446,6 +449,27 @@ class StmtMixin:
                     fr.pre_stack.pop()
         fr.locals.pop("idx", None)
         self.exec_block(node.orelse, fr)
+
+    def check_loop_frame(self, spec, fr, base, iter_heap, iter_alloc):
+        """the loop frame is a proof obligation, not an assumption: after one arbitrary iteration every field the body changed
+        is unchanged on the references that existed when the iteration began, except those the frame names (evaluated at the
+        start of the iteration)"""
+        st = self.st
+        from .smt import Val, RID
+        r = z3.Int("r!lframe")
+        for f in sorted(st.heap.keys()):
+            cur, old = st.heap[f], iter_heap.get(f)
+            if old is None or cur is old or z3.eq(cur, old):
+                continue
+            allowed = spec.frame.get(f, spec.frame.get("*"))
+            if allowed is not None and "*" in allowed:
+                continue
+            refs = []
+            for e in (allowed or []):
+                sv = self.with_heap(iter_heap, fr.pre_stack[-1][1], lambda e=e: self.spec_eval(e, fr), owner=fr) if isinstance(e, str) else e
+                refs.append(sv.term)
+            cond = z3.And(r < iter_alloc, *[z3.Or(z3.Not(Val.is_VRef(x)), r != RID(x)) for x in refs])
+            st.check(f"{base}/frame:{f}", z3.ForAll([r], z3.Implies(cond, z3.Select(cur, r) == z3.Select(old, r))), "loop-frame")
 
     def st_While(self, node, fr):
         spec = self.find_loop_spec(node, fr)
